@@ -19,8 +19,6 @@ from lib.coqrun import coq_str, coq_list
 sys.path.insert(0, os.path.join(os.path.dirname(os.path.dirname(os.path.abspath(__file__))), 'impl'))
 from c11_ast import float_me, cname, bin_   # noqa: E402  (pure helpers, no library import)
 
-F20A = 'F20-repr-not-expression'
-F20B = 'F20-is-inlined-copy'
 
 META = {
     'id': 'C11',
@@ -30,17 +28,17 @@ META = {
                   'comparison values for the inlined repr) on a hand-written Gallina model + differential correspondence '
                   'with the implementation (operator semantics, generated source via hook H1, dump outcomes)'),
     'design_ref': 'DESIGN.md section 4 C11',
-    'theorems': ['C11_cond_ops_table', 'C11_cond_ops_complete', 'C11_cond_compiled_partial', 'C11_cond_compiled_in_context',
-                 'C11_f6_region_safe', 'C11_cond_compiled_refuted', 'C11_keys_partial', 'C11_ref_select_spec',
-                 'C11_keys_refuted'],
+    'theorems': ['C11_cond_ops_table', 'C11_cond_ops_complete', 'C11_cond_compiled', 'C11_cond_compiled_in_context',
+                 'C11_inlined_denoted', 'C11_closure_region', 'C11_cond_text_context_free', 'C11_keys',
+                 'C11_keys_bookkeeping', 'C11_always_compiles', 'C11_ref_select_spec'],
     'tables': ['CondOps'],
     'level_text': ('Proved in Coq for ALL classes (any number of distinct fields, each with/without dump key, default, own '
                    'condition), all Meta settings, all instances, all exclude arguments and all skip_defaults arguments: the '
                    'generated cls_asdict (modelled as the statement list the generator emits, run by an interpreter) appends '
-                   'exactly the reference selection computed with Condition.evaluate, provided every condition is in the '
-                   'decidable safe region; for every operator of the table read from models.py and every safe comparison '
-                   'value the compiled text evaluates like Condition.evaluate. Outside the safe region (residual F20) the '
-                   'statement is refuted by witnesses that are replayed on the implementation.'),
+                   'exactly the reference selection computed with Condition.evaluate; for every operator of the table read '
+                   'from models.py and EVERY comparison value (hashable or not, finite or not, opaque objects included) the '
+                   'compiled text evaluates like Condition.evaluate and always compiles (model of the code after the F6 and '
+                   'F20 repairs).'),
     'level_note': ('Trusted: Coq kernel + vm_compute; the hand-written model (values: None/bool/int/float as m*2^e, nan, inf, '
                    '-0.0/str/tuple/list/dict/opaque tokens; Python comparison semantics; the generator transcribed from '
                    'dumpers.py/environ/dumpers.py); the step text -> AST of repr(v) (validated against ast.parse on every run); '
@@ -56,9 +54,8 @@ META = {
                      '(generators never share them)',
                      'interpretation: with Meta.skip_defaults_if set, the condition replaces the equality-with-default test '
                      '(README: "Skip fields with default values matching a specific condition")'],
-    'assumptions': ['field names are distinct (dataclass invariant, hypothesis NoDup of C11_keys_partial)',
-                    'conditions in the safe region cond_safe (C11_keys_partial, C11_cond_compiled_partial); the complement is '
-                    'the open finding F20'],
+    'assumptions': ['field names are distinct (dataclass invariant, hypothesis NoDup of C11_keys)'],
+
 }
 
 OPS = ['==', '!=', '<', '<=', '>', '>=', 'is', 'is not', '+', '!']
@@ -135,7 +132,8 @@ def d_nonfinite(d):
 
 
 def d_inlined(d):
-    """transcription of the documented is_builtin rule (after the F6 repair)"""
+    """transcription of the documented is_builtin rule (after the F6 repair); since the F20 repair
+    this is necessary but not sufficient for a value to be inlined, see d_spliced"""
     if d_singleton(d):
         return True
     if not d_hashable(d) or d_nonfinite(d):
@@ -172,8 +170,14 @@ def d_nested_nan(d):
     return False
 
 
+def d_spliced(op, d):
+    """is repr(val) spliced into the generated source? (rule of get_skip_if_condition after the F20 repair)"""
+    return d_inlined(d) and (d_singleton(d) or (op not in ('is', 'is not') and d['t'] in ('int', 'str', 'float')))
+
+
 def cond_f20a(c):
-    """inlined although repr(val) does not denote val: 'syntax' | 'name' | None"""
+    """FORMER F20 shape (kept in the generators as regression anchors): passes is_builtin although
+    repr(val) does not denote val: 'syntax' | 'name' | None"""
     if c is None or c['op'] in ('+', '!'):
         return None
     d = c['val']['d']
@@ -187,6 +191,7 @@ def cond_f20a(c):
 
 
 def cond_f20b(c):
+    """FORMER F20 shape: identity test against a non-singleton builtin value"""
     if c is None or c['op'] not in ('is', 'is not'):
         return False
     d = c['val']['d']
@@ -348,8 +353,6 @@ def pick_val(r, f20_ok):
         if CLOSURE_BIAS[0] and d_inlined(d) and r.random() < 0.85:
             continue                      # this class prefers values bound through closure variables
         c = {'op': '==', 'val': {'l': 0, 'd': d}}
-        if cond_f20a(c) and not f20_ok:
-            continue
         return d
 
 
@@ -362,8 +365,6 @@ def gen_cond(r, L, f20_ok=False, ops=None):
         while d['t'] not in ('bool', 'int', 'float', 'str', 'tuple', 'list'):
             d = pick_val(r, f20_ok)
     c = {'op': op, 'val': L.new(d), 'wrap': r.random() < 0.5}
-    if cond_f20b(c) and not f20_ok:
-        c['op'] = r.choice(['==', '!=', '<', '>='])
     return c
 
 
@@ -411,7 +412,7 @@ def cond_cases(ctx):
     """single-field classes: operator x value x placement x wizard"""
     r = ctx.sub_rng('cond')
     cases = []
-    n = 190 if ctx.tier == 'quick' else 1900
+    n = 150 if ctx.tier == 'quick' else 1500
     combos = [(op, i) for op in OPS[:8] for i in range(len(POOL))]
     r.shuffle(combos)
     combos = (combos * 3)[:n] + [(op, None) for op in ('+', '!')] * 3
@@ -422,8 +423,6 @@ def cond_cases(ctx):
         else:
             d = POOL[i] if r.random() < 0.85 else gen_value(r)
             cond = {'op': op, 'val': L.new(d), 'wrap': r.random() < 0.5}
-        if (cond_f20a(cond) or cond_f20b(cond)) and r.random() < 0.85:
-            continue
         place = r.choice(['field', 'annotated', 'meta_skip_if', 'meta_sdi'])
         wizard = r.choice(['json', 'json', 'json', 'plain', 'env'])
         name = r.choice(NAMES)
@@ -452,17 +451,19 @@ def cond_cases(ctx):
 def cls_cases(ctx):
     r = ctx.sub_rng('cls')
     cases = []
-    n = 45 if ctx.tier == 'quick' else 420
+    n = 36 if ctx.tier == 'quick' else 320
     for ci in range(n):
         L = Labels()
         k = r.choice([1, 2, 3, 3, 4, 4, 5, 6]) if ci % 9 else 6
         wizard = r.choice(['json', 'json', 'json', 'json', 'plain', 'env'])
-        f20_ok = r.random() < 0.05
+        f20_ok = True
         CLOSURE_BIAS[0] = r.random() < 0.25
         if CLOSURE_BIAS[0]:
             wizard = r.choice(['json', 'plain', 'env'])
         names = r.sample(NAMES, k)
         meta = {}
+        if wizard == 'json' and r.random() < 0.22:
+            meta['v1'] = True          # v1 engine: Alias(skip=True) declares a field that is never dumped
         if r.random() < 0.5:
             meta['skip_defaults'] = r.random() < 0.6
         if r.random() < 0.35:
@@ -472,9 +473,9 @@ def cls_cases(ctx):
         fields = []
         for nm in names:
             f = {'name': nm, 'key': ref_key(nm, wizard), 'dump': True, 'default': None, 'cond': None, 'place': None}
-            if wizard != 'env' and r.random() < 0.12:
+            if wizard != 'env' and r.random() < (0.4 if meta.get('v1') else 0.12):
                 f['dump'] = False
-                f['dump_via'] = r.choice(['field', 'annotated'])
+                f['dump_via'] = r.choice(['v1_field', 'v1_annotated'] if meta.get('v1') else ['field', 'annotated'])
             if r.random() < 0.6:
                 f['default'] = L.new(r.choice(POOL) if r.random() < 0.8 else gen_value(r))
                 f['factory'] = r.random() < 0.3
@@ -486,6 +487,8 @@ def cls_cases(ctx):
             if not f['dump'] and f.get('dump_via') == 'field' and f['default'] is None and \
                     any((not g['dump']) and g.get('dump_via') == 'field' and g['default'] is not None for g in fields):
                 f['dump_via'] = 'annotated'
+            if not f['dump'] and f.get('dump_via') == 'v1_field' and f['default'] is None:
+                f['dump_via'] = 'v1_annotated'
             fields.append(f)
         insts = []
         for _ in range(2):
@@ -514,7 +517,7 @@ def cls_cases(ctx):
 
 
 def finding_case(kind):
-    """the witnesses of the residual finding F20, as ordinary cases"""
+    """the witnesses of the former finding F20 (fixed), kept as ordinary cases"""
     L = Labels()
     if kind == 'syntax':
         v = L.new(D(Tok('bareobj', 0)))
@@ -527,8 +530,37 @@ def finding_case(kind):
         cond = {'op': 'is', 'val': v, 'wrap': True}
     f = {'name': 'fa', 'key': 'fa', 'dump': True, 'default': None, 'cond': cond, 'place': 'annotated'}
     other = L.new(D(1))
-    return {'stream': 'finding', 'wizard': 'json', 'fields': [f], 'meta': {}, 'instances': [[v], [other]],
+    return {'stream': 'former_f20', 'wizard': 'json', 'fields': [f], 'meta': {}, 'instances': [[v], [other]],
             'Es': [None], 'ss': [None]}
+
+
+def former_f20_cases(ctx):
+    """every former F20 value shape x operator x placement, deterministically present in every run"""
+    r = ctx.sub_rng('former_f20')
+    shapes = [Tok('bareobj', 0), Tok('type', 0), Tok('fn', 0), (Tok('enum', 0),), (1, Tok('bareobj', 1)), (nan,), (-inf, 1),
+              (1, 2), ()]
+    idents = [10 ** 10, 'hello world!', 1.5, (1, 2), 257, '']
+    combos = [(op, x) for x in shapes for op in ('==', '!=', 'is', 'is not', '<')] + \
+             [(op, x) for x in idents for op in ('is', 'is not')]
+    cases = []
+    for op, x in combos:
+        L = Labels()
+        cond = {'op': op, 'val': L.new(D(x)), 'wrap': True}
+        place = r.choice(['field', 'annotated', 'meta_skip_if', 'meta_sdi'])
+        wizard = r.choice(['json', 'json', 'plain', 'env'])
+        f = {'name': 'fa', 'key': 'fa', 'dump': True, 'default': None, 'cond': None, 'place': None}
+        meta = {}
+        if place in ('field', 'annotated'):
+            f['cond'], f['place'] = cond, place
+        elif place == 'meta_skip_if':
+            meta['skip_if'] = cond
+        else:
+            meta['skip_defaults_if'] = cond
+            f['default'] = L.new(D(0))
+        vals = [cond['val'], L.new(cond['val']['d']), L.new(D(1)), L.new(D(None))]
+        cases.append({'stream': 'former_f20', 'wizard': wizard, 'fields': [f], 'meta': meta,
+                      'instances': [[v] for v in vals], 'Es': [None], 'ss': [None]})
+    return cases
 
 
 # ------------------------------------------------------------------ evaluation of one case
@@ -545,30 +577,15 @@ def compiled_conds(c):
     return out
 
 
-def f20b_fields(c):
-    """keys of the fields whose presence may be decided by an `is` test against an inlined copy"""
-    keys = set()
-    for f in c['fields']:
-        eff = f.get('cond') if f.get('cond') is not None else c['meta'].get('skip_if')
-        if cond_f20b(eff) or (f['default'] is not None and cond_f20b(c['meta'].get('skip_defaults_if'))):
-            keys.add(f['key'])
-    return keys
-
-
 def check_call(c, rec, call):
     """Direct predicate on one call. Returns None if it holds, else (description, region id | None)."""
     got, exp = call['got'], call['exp']
     if call['evaluate_mismatch']:
         return ('Condition.evaluate disagrees with the Python operator on %r' % (call['evaluate_mismatch'][:3],), None)
-    kinds = {cond_f20a(k) for _w, k in compiled_conds(c)}
     lazy = exp['lazy'].get('keys', 'raises TypeError')
     if 'err' in got:
         if got['err'] == 'TypeError' and any('raise' in f['acc'] for f in exp['fields']):
             return None
-        if got['err'] == 'SyntaxError' and 'syntax' in kinds:
-            return ('dump raises SyntaxError (a comparison value is inlined as a non-expression)', F20A)
-        if got['err'] == 'NameError' and 'name' in kinds:
-            return ('dump raises NameError (nan/inf inlined inside a tuple)', F20A)
         return ('dump raises %s: %s; reference selection: %r' % (got['err'], got.get('msg'), lazy), None)
     known = [f['key'] for f in exp['fields']]
     if any(k not in known for k in got['keys']) or len(set(got['keys'])) != len(got['keys']):
@@ -577,8 +594,6 @@ def check_call(c, rec, call):
         return ('keys %r not in field order %r' % (got['keys'], known), None)
     wrong = [f['key'] for f in exp['fields'] if ('keep' if f['key'] in got['keys'] else 'omit') not in f['acc']]
     if wrong:
-        if set(wrong) <= f20b_fields(c):
-            return ('keys %r, reference selection %r (`is` against an inlined copy of the value)' % (got['keys'], lazy), F20B)
         return ('keys %r, reference selection %r (wrong: %r)' % (got['keys'], lazy, wrong), None)
     base = rec.get('baseline')
     if base is not None:
@@ -686,9 +701,7 @@ def eval_cases(ctx, cases, impl_cases, tie=True):
                 ctx.hist('outcome', 'raises ' + call['got']['err'] if 'err' in call['got'] else 'keys')
                 if mres is not None:
                     ctx.traces_validated += 1
-                    if mres[k] == 'E:Unspecified':
-                        ctx.hist('model_unspecified', c['stream'])
-                    elif mres[k] != impl_show(c, call['got']):
+                    if mres[k] != impl_show(c, call['got']):
                         ctx.disagreements_checked += 1
                         n_tie_reports += 1
                         if n_tie_reports <= 5:
@@ -701,11 +714,11 @@ def eval_cases(ctx, cases, impl_cases, tie=True):
 # ------------------------------------------------------------------ sem stream
 def sem_stream(ctx):
     r = ctx.sub_rng('sem')
-    pool = list(POOL) + [gen_value(r) for _ in range(25 if ctx.tier == 'quick' else 120)]
+    pool = list(POOL) + [gen_value(r) for _ in range(25 if ctx.tier == 'quick' else 60)]
     n = len(pool)
     allp = [(i, j) for i in range(n) for j in range(n)]
     if ctx.tier == 'quick':
-        pairs = [(i, i) for i in range(n)] + r.sample(allp, 1500)
+        pairs = [(i, i) for i in range(n)] + r.sample(allp, 1000)
     else:
         pairs = allp
     pairs = list(dict.fromkeys(pairs))
@@ -780,7 +793,7 @@ def run(ctx):
             still = not replay(ctx, w, quiet=True)
             ctx.known_finding(f['id'], still_fails=still)
     sem_stream(ctx)
-    cases = cond_cases(ctx) + cls_cases(ctx) + [finding_case(k) for k in ('syntax', 'name', 'is')]
+    cases = cond_cases(ctx) + cls_cases(ctx) + [finding_case(k) for k in ('syntax', 'name', 'is')] + former_f20_cases(ctx)
     impl_cases = run_batch(ctx, cases)
     failures = eval_cases(ctx, cases, impl_cases)
     n_viol = 0
@@ -799,16 +812,19 @@ def run(ctx):
                           {'kind': 'case', 'case': c, 'instance': ii, 'call': k})
     for c in cases:
         ctx.hist('stream', c['stream'])
-        ctx.hist('wizard', c['wizard'])
+        ctx.hist('wizard', c['wizard'] + ('/v1' if c['meta'].get('v1') else ''))
+        for f in c['fields']:
+            if not f['dump']:
+                ctx.hist('not_dumped_via', f.get('dump_via'))
         ctx.hist('fields', len(c['fields']))
         for _w, k in compiled_conds(c):
             ctx.hist('cond_op', k['op'])
             if k['val'] is not None:
                 d = k['val']['d']
                 ctx.hist('cond_val', d['t'] + (':nonfinite' if d_nonfinite(d) else '') +
-                         ('' if d_inlined(d) else ':closure'))
+                         ('' if d_spliced(k['op'], d) else ':closure'))
             if cond_f20a(k) or cond_f20b(k):
-                ctx.hist('cond_in_F20_region', cond_f20a(k) or 'is-copy')
+                ctx.hist('cond_of_former_F20_shape', cond_f20a(k) or 'is-copy')
     ci = next((i for i, c in enumerate(cases) if c['stream'] == 'cls' and len(c['fields']) >= 3), 0)
     if 'instances' in impl_cases[ci]:
         ctx.sample({'class_source': impl_cases[ci].get('class_source'), 'generated': impl_cases[ci].get('source_text'),
